@@ -42,6 +42,12 @@ EarlyPool == <<
     <<TI("L"), TP(":"), TI("M"), TP(":")>> \o WhileW(<<TK("continue"), TI("L"), TP(";"), TK("continue"), TI("M"), TP(";")>>),
     <<TI("L"), TP(":"), TP("{"), TK("break"), TI("L"), TP(";"), TP("}")>>, <<TI("L"), TP(":"), TP("{"), TK("continue"), TI("L"), TP(";"), TP("}")>>,
     <<TI("L"), TP(":"), TK("break"), TI("L"), TP(";")>>, <<TI("L"), TP(":"), TK("continue"), TI("L"), TP(";")>>,
+    \* a labelled statement between a labelled block and a labelled loop must not make the block's label a loop label
+    <<TI("L"), TP(":"), TP("{"), TI("M"), TP(":"), TI("a"), TP(";"), TI("p"), TP(":")>> \o WhileW(<<TK("continue"), TI("L"), TP(";")>>) \o <<TP("}")>>,
+    <<TI("L"), TP(":"), TP("{"), TI("M"), TP(":"), TI("a"), TP(";"), TI("p"), TP(":")>> \o WhileW(<<TK("continue"), TI("p"), TP(";")>>) \o <<TP("}")>>,
+    <<TI("L"), TP(":"), TP("{"), TI("M"), TP(":"), TP("{"), TP("}"), TI("p"), TP(":"), TI("q"), TP(":")>> \o WhileW(<<TK("continue"), TI("L"), TP(";")>>) \o <<TP("}")>>,
+    <<TI("L"), TP(":"), TP("{"), TI("M"), TP(":"), TP("{"), TP("}"), TI("p"), TP(":"), TI("q"), TP(":")>> \o WhileW(<<TK("continue"), TI("p"), TP(";")>>) \o <<TP("}")>>,
+    <<TI("L"), TP(":")>> \o WhileW(<<TI("M"), TP(":"), TI("a"), TP(";"), TI("p"), TP(":"), TP("{"), TK("continue"), TI("p"), TP(";"), TP("}")>>),
     <<TI("L"), TP(":"), TI("L"), TP(":"), TP(";")>>, <<TI("L"), TP(":"), TP("{"), TI("L"), TP(":"), TP(";"), TP("}")>>, <<TI("L"), TP(":"), TP(";"), TI("L"), TP(":"), TP(";")>>,
     <<TI("L"), TP(":"), TI("M"), TP(":"), TI("L"), TP(":"), TP(";")>>, <<TI("L"), TP(":")>> \o FnE(<<TI("L"), TP(":"), TP(";")>>),
     <<TI("L"), TP(":")>> \o WhileW(FnE(<<TK("break"), TI("L"), TP(";")>>)), <<TI("L"), TP(":")>> \o WhileW(FnE(<<TK("continue"), TI("L"), TP(";")>>)),
